@@ -19,7 +19,7 @@ func init() { register("C14", func() core.Check { return &c14{} }) }
 
 func (*c14) Level() string { return "exploration" }
 func (*c14) Rule() string {
-	return "case = one hostile scenario (random bytes; byte/token mutations and truncations of valid journals; semantic hostiles: inverted accrual windows, dates 0001-01-01 / 9999-12-31 / 2020-02-30 / 2020-13-45, 400-digit numbers, zero and negative prices, 10^4 bookings; include graphs: self-include, 2- and 3-cycles, diamonds, missing file, directory, dangling symlink, unreadable file under a dropped uid, 200-deep chain, one bad leaf in a 40-file tree; flag hostiles: absent optional flags, inverted windows, --last in {-5,0,10^9}, invalid regexes, -m garbage, unknown -v, --digits in {-3,40}, valid but unusual values (--remap / -m / --account / -s for every account type, repeated filters, other valuation commodities, --digits at the accepted bounds), and -m level / -m level:suffix / --last / --digits at the edges of the integer types (2^31-1, 2^31, 2^32, 2^63-1, 2^63, 2^64-1, 2^64, -2^63, signs, hex, exponent, padded and non-ASCII digits); empty journal; nonexistent file) x every journal-processing command (check, check --write, balance, print, format, infer, transcode, portfolio weights, portfolio returns); oracle = process-outcome monitor: exit in {0,1}, no panic / fatal error / signal, watchdog 20 s (reproduced 3x = hang, else inconclusive), RSS <= 1 GB under a 4 GB address-space limit (a death at the limit with less than 512 MB resident is inconclusive: virtual address space is not memory), stderr non-empty on failure, stdout empty on failure of balance / print / transcode / infer / check --write, and failure whenever a bad file is planted in the include graph; non-trivial = run that reached a failure path (exit 1) or parsed >= 1 directive; distinct = scenario kind + command + outcome class + input hash"
+	return "case = one hostile scenario (random bytes; byte/token mutations and truncations of valid journals; semantic hostiles: inverted accrual windows, dates 0001-01-01 / 9999-12-31 / 2020-02-30 / 2020-13-45, 400-digit numbers, zero and negative prices, 10^4 bookings; include graphs: self-include, 2- and 3-cycles, diamonds, missing file, directory, dangling symlink, unreadable file under a dropped uid, 200-deep chain, one bad leaf in a 40-file tree; several files on one format command line of which several are unparseable, with 1-3 workers; flag hostiles: absent optional flags, inverted windows, --last in {-5,0,10^9}, invalid regexes, -m garbage, unknown -v, --digits in {-3,40}, valid but unusual values (--remap / -m / --account / -s for every account type, repeated filters, other valuation commodities, --digits at the accepted bounds), and -m level / -m level:suffix / --last / --digits at the edges of the integer types (2^31-1, 2^31, 2^32, 2^63-1, 2^63, 2^64-1, 2^64, -2^63, signs, hex, exponent, padded and non-ASCII digits); empty journal; nonexistent file) x every journal-processing command (check, check --write, balance, print, format, infer, transcode, portfolio weights, portfolio returns); oracle = process-outcome monitor: exit in {0,1}, no panic / fatal error / signal, watchdog 20 s (reproduced 3x = hang, else inconclusive), RSS <= 1 GB under a 4 GB address-space limit (a death at the limit with less than 512 MB resident is inconclusive: virtual address space is not memory), stderr non-empty on failure, stdout empty on failure of balance / print / transcode / infer / check --write, and failure whenever a bad file is planted in the include graph; non-trivial = run that reached a failure path (exit 1) or parsed >= 1 directive; distinct = scenario kind + command + outcome class + input hash"
 }
 
 func (k *c14) Setup(c *core.Ctx) (int, error) { return c.N(700, 20000), nil }
@@ -38,6 +38,8 @@ type c14Scenario struct {
 	flags    map[string][]string // extra flags per command key (hostile flags)
 	uid      int
 	unread   []string // files to chmod 000
+	more     []string // further file arguments (format only)
+	procs    string   // GOMAXPROCS for this scenario ("" = the per-case rotation)
 }
 
 var c14Valid = `2020-01-01 open Assets:Bank
@@ -285,6 +287,27 @@ func (k *c14) scenario(c *core.Ctx, i int) c14Scenario {
 			set("main.knut", valid+"\ninclude \"\"\n")
 			sc.mustFail = true
 		}
+	case pick < 78:
+		// several files on one format command line, several of them unparseable, few workers
+		sc.kind = "format-many-files"
+		sc.onlyCmds = []string{"format"}
+		n := 2 + r.Intn(7)
+		nbad := 1 + r.Intn(n)
+		for f := 0; f < n; f++ {
+			name := fmt.Sprintf("f%d.knut", f)
+			text := valid
+			if f < nbad {
+				text = []string{valid[:len(valid)/2+r.Intn(len(valid)/3)] + "\n)(\n", "2020-01-01 opne Assets:X\n" + valid, valid + "\n2020-01-01 \"unterminated\nA B 1 CHF\n", "\xff\xfe" + valid}[r.Intn(4)]
+			}
+			set(name, text)
+			if f > 0 {
+				sc.more = append(sc.more, name)
+			}
+		}
+		r.Shuffle(len(sc.more), func(a, b int) { sc.more[a], sc.more[b] = sc.more[b], sc.more[a] })
+		sc.main = "f0.knut"
+		sc.mustFail = true
+		sc.procs = []string{"1", "1", "2", "3"}[r.Intn(4)]
 	case pick < 95:
 		sc.kind = "flags"
 		set("main.knut", valid)
@@ -417,8 +440,14 @@ func (k *c14) RunCase(c *core.Ctx, i int) {
 			}
 		}
 		args = append(args, target)
+		if cmd.key == "format" {
+			args = append(args, sc.more...)
+		}
 		// the number of CPUs is part of the configuration: a third of the cases run on one or two
 		env := []string{"GOMAXPROCS=" + []string{"1", "2", "16", "16", "16", "4"}[i%6]}
+		if sc.procs != "" {
+			env = []string{"GOMAXPROCS=" + sc.procs}
+		}
 		ex := core.Cmd{Argv: append([]string{c.Knut}, args...), Dir: dir, Env: env, Timeout: 20 * time.Second, ASLimit: 4 << 30, Fsize: -1, UID: sc.uid}
 		res := execCounted(c, ex)
 		c.Eval(1)
